@@ -65,6 +65,11 @@ class FsMixin:
             return posixpath.join(*parts)
         self.env.use('os.path.join: POSIX, components after the first are relative (A-POSIX)')
         ts = []
+        for j, p in enumerate(parts):
+            if isinstance(p, Opt):
+                if it.st.branch(p.isnone):
+                    raise_py('TypeError', 'expected str, bytes or os.PathLike object, not NoneType')
+                parts[j] = p.inner
         for i, p in enumerate(parts):
             if i:
                 ts.append(z3.StringVal('/'))
